@@ -171,6 +171,18 @@ func (r *c13RM) Fetch(t string) ([]*storage.Row, []*storage.Field, error) {
 	return rows, fields, err
 }
 
+// the validation passes of INSERT / UPDATE (engine.rowChecker / updateChecker): calls on the relation
+// manager like any other, read-only
+func (r *c13RM) CheckInsert(t string, cols []string, vals []interface{}) error {
+	r.d.calls = append(r.d.calls, "CheckInsert")
+	return r.RelationService.CheckInsert(t, cols, vals)
+}
+
+func (r *c13RM) CheckUpdate(t string, rowID uint32, cols []string, src []interface{}) error {
+	r.d.calls = append(r.d.calls, "CheckUpdate")
+	return r.RelationService.CheckUpdate(t, rowID, cols, src)
+}
+
 func (r *c13RM) Insert(t string, cols []string, vals []interface{}) (storage.WALBatch, error) {
 	r.d.calls = append(r.d.calls, "Insert")
 	b, err := r.RelationService.Insert(t, cols, vals)
